@@ -52,7 +52,7 @@ def oracle(ctx, convs, normal_ids):
     seen_known = set()
     for (c, m), line, out in zip(meta, lines, res):
         v, fs, why = A.judge(c, m, out)
-        if v == "ok" and not fs and m == "cs" and not A.features(c, "conv"):
+        if v == "ok" and not fs and m == "cs" and A.in_coq_normal_form(c):
             normal_ids.add(out["id"])      # in normal form: also checked against the Coq specification's report
         nontrivial = len(out["items"]) > 0
         ctx.count_case(("conv", line), nontrivial, "conv-" + c.note.split(":")[0])
@@ -120,6 +120,11 @@ def run(ctx):
                            "items": [[i["by"], i["rqm"], i["rsm"]] for i in out["items"]], "residue": out["residue"]},
                            "why": "the Coq model of the dissector (AmqpModel.v, about which the theorems are proved) computes another result "
                                   "for this input than the implementation", "how": "echo '<case>' | work/bin/vh-amqp run"})
+        sb = getattr(ctx, "amqp_spec_mismatches", [])
+        if sb:
+            line, out = kpairs[sb[0]]
+            ctx.broken.append("S_amqp: on %d normal-form conversations the Coq specification (AmqpSpec.normal / spec_report) and the model "
+                              "disagree although the implementation matches the exact report, first: %s" % (len(sb), line[:400]))
     else:
         ctx.broken.append("K_amqp: the model does not compile")
     ctx.trusted += [
